@@ -241,11 +241,12 @@ def analyse_cell(args):
             out['validated'] += 1
             if real_events != spec_events:
                 out['violations'].append(dict(kind='trace', beh={'embedded': True}, real=real_events, spec=spec_events, status=presp.status_code))
-        for vec in vectors:
+        vectors = [vectors[0]] + vectors       # the all-pass vector twice: second time with doubled slashes in the URL
+        for vi, vec in enumerate(vectors):
             BEH.clear()
             BEH.update(vec)
             del REC[:]
-            req = Request(EnvironBuilder(path=path).get_environ())
+            req = Request(EnvironBuilder(path=(path.replace('/', '//') if (vi == 1 and cfgc['url']) else path)).get_environ())
             resp = app.dispatch(req)
             real_events = ['%s:%s' % (e[0], e[1]) for e in REC]
             sub = [(f.beh, z3.IntVal(vec[f.name])) for f in finfos]
